@@ -26,6 +26,7 @@
 #include <set>
 #include <string>
 #include <thread>
+#include <unordered_set>
 #include <vector>
 
 namespace glmx {
@@ -105,7 +106,9 @@ static inline Domain func(const std::string& name, uint64_t size, int words, voi
 struct Outcome {
   bool fail; int vclass; int kf; bool nontrivial; int oclass;
   int ngot, nwant; uint64_t got[20], want[20]; char msg[160];
-  void reset() { fail = false; vclass = 0; kf = -1; nontrivial = true; oclass = -1; ngot = nwant = 0; msg[0] = 0; }
+  uint64_t state; bool has_state;   // explicit-state ops: canonical hash of the state reached by this case
+  void st(uint64_t h) { state = h; has_state = true; }
+  void reset() { has_state = false; fail = false; vclass = 0; kf = -1; nontrivial = true; oclass = -1; ngot = nwant = 0; msg[0] = 0; }
   void res(uint64_t a) { got[0] = a; ngot = 1; }
   void res(uint64_t a, uint64_t b) { got[0] = a; got[1] = b; ngot = 2; }
   void exp(uint64_t a) { want[0] = a; nwant = 1; }
@@ -133,6 +136,7 @@ struct OpStats {
   struct Dom { std::string name; uint64_t size, done; bool complete, exhaustive; double wall; };
   std::vector<Dom> doms;
   std::vector<std::pair<Case, Outcome>> samples;
+  std::unordered_set<uint64_t> states;
 };
 
 struct Engine {
@@ -209,7 +213,7 @@ struct Engine {
         std::atomic<uint64_t> nextc(0), done(0); std::mutex mu; std::atomic<bool> stop(false);
         auto worker = [&]() {
           uint64_t ev = 0, nt = 0, hh = 0; std::vector<uint64_t> cl(st.cls.size(), 0);
-          std::map<std::string, Witness> lv;
+          std::map<std::string, Witness> lv; std::unordered_set<uint64_t> lstates;
           Case c; Outcome o; c.n = dom.words;
           for (;;) {
             uint64_t ch = nextc.fetch_add(1); if (ch >= nch) break;
@@ -219,6 +223,7 @@ struct Engine {
             for (uint64_t i = lo; i < hi; ++i) {
               dom.at(i, c.w); o.reset(); op.fn(c, o);
               ++ev; if (o.nontrivial) ++nt;
+              if (o.has_state) lstates.insert(o.state);
               if (o.oclass >= 0 && (size_t)o.oclass < cl.size()) ++cl[o.oclass];
               if (o.fail) {
                 char key[64]; std::snprintf(key, sizeof key, "|%d|%d", o.vclass, o.kf);
@@ -232,6 +237,7 @@ struct Engine {
           }
           std::lock_guard<std::mutex> g(mu);
           st.evaluations += ev; st.nontrivial += nt; (void)hh;
+          st.states.insert(lstates.begin(), lstates.end());
           for (size_t k = 0; k < cl.size(); ++k) st.cls[k] += cl[k];
           for (auto& kv : lv) {
             bool isk = kv.second.o.kf >= 0 && (size_t)kv.second.o.kf < kf_ids.size() && kf_enabled.count(kf_ids[kv.second.o.kf]);
@@ -293,7 +299,7 @@ struct Engine {
       bool firstop = true;
       for (size_t oi = 0; oi < ops.size(); ++oi) {
         OpStats& st = stats[oi]; if (st.doms.empty()) continue;
-        std::fprintf(f, "%s  {\"name\": \"%s\", \"evaluations\": %" PRIu64 ", \"nontrivial\": %" PRIu64 ", \"note\": \"%s\", \"domains\": [", firstop ? "" : ",\n", jesc(ops[oi].name).c_str(), st.evaluations, st.nontrivial, jesc(ops[oi].note).c_str());
+        std::fprintf(f, "%s  {\"name\": \"%s\", \"evaluations\": %" PRIu64 ", \"nontrivial\": %" PRIu64 ", \"states\": %zu, \"note\": \"%s\", \"domains\": [", firstop ? "" : ",\n", jesc(ops[oi].name).c_str(), st.evaluations, st.nontrivial, st.states.size(), jesc(ops[oi].note).c_str());
         firstop = false;
         for (size_t d = 0; d < st.doms.size(); ++d)
           std::fprintf(f, "%s{\"name\": \"%s\", \"size\": %" PRIu64 ", \"done\": %" PRIu64 ", \"complete\": %s, \"exhaustive_space\": %s, \"wall_s\": %.3f}", d ? "," : "", jesc(st.doms[d].name).c_str(), st.doms[d].size, st.doms[d].done, st.doms[d].complete ? "true" : "false", st.doms[d].exhaustive ? "true" : "false", st.doms[d].wall);
